@@ -639,6 +639,7 @@ fn check_duplicate(ch: &mut Choices, cx: &mut Ctx) -> R {
     for i in 0..n {
         codes.push(match ch.below(4) {
             0 => i as u64 + 1,
+            1 if ch.bool() => 1 + ch.below(8) as u64,
             1 => 100 + ch.below(50) as u64,
             2 => (1u64 << 40) + ch.below(4) as u64,
             _ => codes.len() as u64 + 1,
@@ -665,12 +666,108 @@ fn check_duplicate(ch: &mut Choices, cx: &mut Ctx) -> R {
     }
 }
 
+/// Alphabet of the exhaustive abbreviation-code enumeration: small codes (the sequential fast path and its
+/// boundary with the sparse map) and two huge ones.
+const CODE_ALPHABET: [u64; 8] = [1, 2, 3, 4, 5, 6, 1 << 40, u64::MAX];
+
+fn code_sequence(mut idx: u64, len: usize) -> Vec<u64> {
+    let k = CODE_ALPHABET.len() as u64;
+    let mut v = Vec::with_capacity(len);
+    for _ in 0..len {
+        v.push(CODE_ALPHABET[(idx % k) as usize]);
+        idx /= k;
+    }
+    v
+}
+
+/// One declaration order of abbreviation codes: rejected exactly when a code repeats; otherwise every code maps to
+/// its own declaration and nothing else is found.
+fn check_code_sequence(codes: &[u64], cx: &mut Ctx) -> R {
+    let list: Vec<Abbrev> = codes.iter().enumerate().map(|(i, c)| Abbrev { code: *c, tag: 0x100 + i as u16, children: i % 2 == 1, attrs: vec![] }).collect();
+    let mut w = W::new(false);
+    encode_abbrevs(&list, &mut w);
+    let da = DebugAbbrev::new(&w.buf, RunTimeEndian::Little);
+    let dup = codes.iter().enumerate().any(|(i, c)| codes[..i].contains(c));
+    cx.say(|| format!("abbreviation codes in declaration order {:x?}; duplicate: {}", codes, dup));
+    match da.abbreviations(gimli::DebugAbbrevOffset(0)) {
+        Err(gimli::Error::DuplicateAbbreviationCode(c)) => {
+            ensure!(dup, "c02/abbrev-order/rejected-without-duplicate", "codes {:x?} reported duplicate {:#x}", codes, c);
+            ensure!(codes.iter().filter(|x| **x == c).count() >= 2, "c02/duplicate/wrong-code-reported", "reported {:#x}, codes {:x?}", c, codes);
+            cx.nt();
+        }
+        Err(e) => fail!("c02/abbrev-order/error", "codes {:x?} -> {:?}", codes, e),
+        Ok(t) => {
+            ensure!(!dup, "c02/duplicate/accepted", "codes {:x?} accepted although a code repeats", codes);
+            for (i, c) in codes.iter().enumerate() {
+                match t.get(*c) {
+                    Some(a) => {
+                        ensure!(a.code() == *c && a.tag() == gimli::DwTag(0x100 + i as u16) && a.has_children() == (i % 2 == 1), "c02/abbrev/get-wrong", "codes {:x?}: get({:#x}) returned code {:#x} tag {:#x}", codes, c, a.code(), a.tag().0);
+                    }
+                    None => fail!("c02/abbrev/get-missing", "codes {:x?}: get({:#x}) found nothing", codes, c),
+                }
+            }
+            for c in CODE_ALPHABET.iter().chain([0u64, 7, 8, (1 << 40) + 1, (1 << 32) + 1, u64::MAX - 1].iter()) {
+                if !codes.contains(c) {
+                    ensure!(t.get(*c).is_none(), "c02/abbrev/get-phantom", "codes {:x?}: get({:#x}) found a declaration", codes, c);
+                }
+            }
+            if codes.len() >= 3 {
+                cx.nt();
+            }
+        }
+    }
+    Ok(())
+}
+
 impl Prop for C02 {
     fn id(&self) -> &'static str {
         "C02"
     }
+    fn exhaustive(&self, tier: Tier, dev: bool, shard: usize, nshards: usize, ex: &mut Exhaust) {
+        let k = CODE_ALPHABET.len() as u64;
+        let maxlen = match (tier, dev) {
+            (Tier::Quick, true) => 4,
+            (Tier::Quick, false) => 5,
+            (Tier::Thorough, true) => 5,
+            (Tier::Thorough, false) => 7,
+        };
+        let mut total = 0u64;
+        let mut nt = 0u64;
+        for len in 1..=maxlen {
+            let count = k.pow(len as u32);
+            let mut idx = shard as u64;
+            while idx < count {
+                let codes = code_sequence(idx, len);
+                let mut cx = Ctx::new(ex.known, false, ex.dev);
+                let r = catch("enum-abbrev-codes", || check_code_sequence(&codes, &mut cx)).and_then(|r| r);
+                total += 1;
+                if cx.nontrivial {
+                    nt += 1;
+                }
+                if let Err(e) = r {
+                    let mut data = vec![len as u8];
+                    data.extend_from_slice(&idx.to_le_bytes());
+                    ex.fail("enum-abbrev-codes", &data, e);
+                    if ex.stop {
+                        return;
+                    }
+                }
+                idx += nshards as u64;
+            }
+        }
+        ex.tally(total, nt, "exhaustive-abbreviation-code-orders");
+        ex.complete(&format!("all declaration orders of length<={} over the codes {{1..6, 2^40, 2^64-1}}", maxlen));
+    }
+    fn replay_special(&self, mode: &str, data: &[u8], cx: &mut Ctx) -> R {
+        if mode != "enum-abbrev-codes" || data.len() < 9 {
+            fail!("replay/unknown-mode", "{}", mode);
+        }
+        let mut a = [0u8; 8];
+        a.copy_from_slice(&data[1..9]);
+        check_code_sequence(&code_sequence(u64::from_le_bytes(a), data[0] as usize), cx)
+    }
     fn rule(&self) -> &'static str {
-        "random forests: 1-3 units per section (.debug_info with every DWARF 5 unit type and v2-4 compile units; .debug_types with v2-4 type units), each a generated tree of 1-40 entries (shapes: random, deep chain, wide, leaf-only, empty child lists, trailing null padding), units differing in version/format/address size, shared or separate abbreviation tables, abbreviation code schemes {sequential, permuted declaration order, sparse, huge >= 2^63, dense-sparse-dense, aliasing modulo 2^32}, DW_AT_sibling none / on all parents / on a subset in forms ref1/2/4/8/udata. Oracle: the assembler's record (offset, depth, tag, children flag, attribute count, parent) per entry. Compared: raw read_entry with next_offset/next_depth, next_dfs, next_entry incl. nulls, next_sibling from every parent, full and children-only walks of the tree iterator from every entry, entry()/entries_raw/entries_tree/entries_at_offset positioned at every entry and null, header accessors and offset conversions, Abbreviations::get for present and absent (+-1, +-2^32, |2^63) codes; separate mode: tables with a duplicated code must be rejected. Non-trivial = >=5 entries, depth >=3 and a node with >=2 children that themselves have children; distinct by choice string."
+        "random forests: 1-3 units per section (.debug_info with every DWARF 5 unit type and v2-4 compile units; .debug_types with v2-4 type units), each a generated tree of 1-40 entries (shapes: random, deep chain, wide, leaf-only, empty child lists, trailing null padding), units differing in version/format/address size, shared or separate abbreviation tables, abbreviation code schemes {sequential, permuted declaration order, sparse, huge >= 2^63, dense-sparse-dense, aliasing modulo 2^32}, DW_AT_sibling none / on all parents / on a subset in forms ref1/2/4/8/udata. Oracle: the assembler's record (offset, depth, tag, children flag, attribute count, parent) per entry. Compared: raw read_entry with next_offset/next_depth, next_dfs, next_entry incl. nulls, next_sibling from every parent, full and children-only walks of the tree iterator from every entry, entry()/entries_raw/entries_tree/entries_at_offset positioned at every entry and null, header accessors and offset conversions, Abbreviations::get for present and absent (+-1, +-2^32, |2^63) codes; separate mode: tables with a duplicated code must be rejected; exhaustive mode: every declaration order of up to 5 (thorough: 7) codes over {1..6, 2^40, 2^64-1} is rejected exactly when a code repeats and otherwise maps every code to its own declaration. Non-trivial = >=5 entries, depth >=3 and a node with >=2 children that themselves have children; distinct by choice string."
     }
     fn assumptions(&self) -> Vec<&'static str> {
         vec![
